@@ -16,8 +16,10 @@ besides returning: `panic!`, `todo!`, `unreachable!`, `unwrap`/`expect`, slice i
 overflow checks, wrapping `as` casts — and for the two *model* budgets below.  Crash sites examined in the
 current code (after the `fix:` commits 34d49dc, cc7df7f, 4d5e5ce):
 
-* `parse_instruction`, instruction.rs:108 `&input[..1]` and :120 `&input[1..]` — slice indexing, panics if
-  the slice is shorter: modelled by `sliceFrom` / `sliceTo`, which crash on a short list;
+* `parse_instruction`, instruction.rs:108 `&input[..1]` and :120 `&input[1..]`, and `parse_delay`,
+  command.rs:408/410 `&input[qubits.len()..]` — slice indexing, panics if the slice is shorter: modelled
+  by `sliceFrom` / `sliceTo`, which crash on a short list;
+* `parse_call_immediate`, command.rs:159 — `0.0 - x`, `first + second`, `==` on f64: total;
 * `extract_nom_err`, parser/mod.rs:65 `unreachable!()` on `nom::Err::Incomplete` — only streaming parsers
   produce `Incomplete`; every parser here is a `complete` one and `Outcome` has no such constructor;
 * `signed_integer`, common.rs:47 — `checked_sub_unsigned` / `i64::try_from`: an unrepresentable value is an
@@ -285,6 +287,16 @@ def allConsuming (p : Parser α) : Parser α := fun i =>
 
 end Combinators
 
+/-! ## slice indexing -/
+
+/-- `&input[n..]`: panics when `n > input.len()` -/
+def sliceFrom (input : List Token) (n : Nat) : Outcome Unit :=
+  if n ≤ input.length then .ok () (input.drop n) else .crash "slice index out of range"
+
+/-- `&input[..n]`: panics when `n > input.len()` -/
+def sliceTo (input : List Token) (n : Nat) : Outcome Unit :=
+  if n ≤ input.length then .ok () (input.take n) else .crash "slice index out of range"
+
 /-! ## numbers -/
 
 /-- `signed_integer` (common.rs:47-58): `0i64.checked_sub_unsigned(m)` / `i64::try_from(m)`. -/
@@ -300,6 +312,30 @@ def applySign (negative : Bool) (bits : Nat) : Nat :=
 
 /-- `n as f64` for a `u64` -/
 def u64ToF64 (n : Nat) : Nat := QV.DecF64.ofNat n
+
+/-- bits of `-0.0_f64` -/
+def negZeroBits : Nat := 0x8000000000000000
+
+/-- `x == 0f64` on bits: `+0.0` or `-0.0` -/
+def fIsZero (b : Nat) : Bool := b == 0 || b == negZeroBits
+
+/-- `0f64 - x` on bits (exact for every non-NaN `x`: `0 - ±0 = +0`, otherwise the sign flip) -/
+def fZeroMinus (b : Nat) : Nat := if fIsZero b then 0 else QV.DecF64.negBits b
+
+/-- `x + y` on bits when at least one operand is a zero (the only additions the parser performs:
+`parse_call_immediate` adds `first + second` only when `first.im == 0` and `second.re == 0`);
+exact for non-NaN operands: `±0 + y = y` for `y ≠ 0`, `-0 + -0 = -0`, every other sum of zeros is `+0`.
+(If neither operand is a zero — unreachable from the parser — the first is returned.) -/
+def fAddZero (x y : Nat) : Nat :=
+  if fIsZero x then
+    if fIsZero y then (if x == negZeroBits && y == negZeroBits then negZeroBits else 0) else y
+  else x
+
+/-- `Complex64::new(0.0, 0.0) - value` (the `negate` closure of `parse_call_immediate`) -/
+def cNegate (z : CBits) : CBits := ⟨fZeroMinus z.re, fZeroMinus z.im⟩
+
+/-- `first + second` under the guard of `parse_call_immediate` -/
+def cAddGuarded (a b : CBits) : CBits := ⟨fAddZero a.re b.re, fAddZero a.im b.im⟩
 
 /-- ASCII lower-casing; agrees with `str::to_lowercase` as far as the seven names tested by
 `parse_expression_identifier` are concerned (no non-ASCII character lower-cases to a letter of
@@ -731,11 +767,27 @@ def parseDeclare : Parser Instruction := do
   let sharing ← parseSharing
   pure (.declaration ⟨str name, size, sharing⟩)
 
-/-- `parse_call_argument` (command.rs:145) -/
+/-- `parse_call_immediate` (command.rs:159): `[-] value [(+|-) value]`; the second value is taken only
+when the first is real, the second purely imaginary and non-zero — otherwise the tokens after the first
+value are given back (the `_` arm returns the input from BEFORE `opt(imaginary_part)`). -/
+def parseCallImmediate : Parser CBits := do
+  let minus ← opt (tok (.operator .minus))
+  let first ← parseImmediateValue
+  let first := if minus.isSome then cNegate first else first
+  fun input =>
+    match opt (alt (preceded (tok (.operator .plus)) parseImmediateValue)
+        (pmap cNegate (preceded (tok (.operator .minus)) parseImmediateValue))) input with
+    | .ok (some second) rest =>
+      if fIsZero first.im && fIsZero second.re && !fIsZero second.im then .ok (cAddGuarded first second) rest
+      else .ok first input
+    | .ok none _ => .ok first input
+    | .err => .err | .fail => .fail | .crash w => .crash w
+
+/-- `parse_call_argument` (command.rs:143) -/
 def parseCallArgument : Parser UnresolvedCallArgument :=
   alt (pmap .memoryReference parseMemoryReferenceWithBrackets)
     (alt (pmap (fun s => .identifier (str s)) tokIdentifier)
-      (pmap .immediate parseImmediateValue))
+      (pmap .immediate parseCallImmediate))
 
 /-- `parse_call` (command.rs:136) -/
 def parseCall : Parser Instruction := do
@@ -863,20 +915,47 @@ def parseDefcircuit (pi : Parser Instruction) : Parser Instruction := do
   let instructions ← parseBlock pi
   pure (.circuitDefinition (str name) (parameters.getD []) qubitVariables instructions)
 
-/-- `parse_delay` (command.rs:377): when no expression follows the qubits and frame names, a trailing
-fixed qubit is re-read as the duration (`or_else` catches `Error` and `Failure` alike). -/
-def parseDelay (pe : Parser PExpr) : Parser Instruction := do
-  let qubits ← many0 parseQubit
+/-- `parse_delay_frame_names_and_duration` (command.rs:426) -/
+def parseDelayFrameNamesAndDuration (pe : Parser PExpr) : Parser (List String × PExpr) := do
   let frameNames ← many0 tokString
-  let (duration, qubits) ← (fun input =>
-    match pe input with
-    | .ok d rest => .ok (d, qubits) rest
+  let duration ← pe
+  pure (frameNames.map str, duration)
+
+/-- the `while result.is_err() && qubits.pop().is_some()` loop of `parse_delay`: `k` qubits are left;
+give one back and retry; when none is left the FIRST error stands.  `&input[qubits.len()..]` is slice
+indexing (`sliceFrom`). -/
+def delayBacktrack {α : Type} (p : Parser α) (input : List Token) (first : Outcome (α × Nat)) :
+    Nat → Outcome (α × Nat)
+  | 0 => first
+  | k + 1 =>
+    match sliceFrom input k with
     | .crash w => .crash w
-    | e =>
-      match qubits.getLast? with
-      | some (.fixed index) => .ok (.number (CBits.real (u64ToF64 index)), qubits.dropLast) input
-      | _ => e.map fun d => (d, qubits))
-  pure (.delay ⟨duration, frameNames.map str, qubits⟩)
+    | _ =>
+      match p (input.drop k) with
+      | .ok v rest => .ok (v, k) rest
+      | .crash w => .crash w
+      | _ => delayBacktrack p input first k
+
+/-- `parse_delay` (command.rs:402): the qubits are read greedily (every qubit is one token), then given
+back one at a time until the rest parses as frame names and an expression. -/
+def parseDelay (pe : Parser PExpr) : Parser Instruction := fun input =>
+  match many0 parseQubit input with
+  | .ok qubits _ =>
+    let p := parseDelayFrameNamesAndDuration pe
+    let k := qubits.length
+    let result : Outcome ((List String × PExpr) × Nat) :=
+      match sliceFrom input k with
+      | .crash w => .crash w
+      | _ =>
+        match p (input.drop k) with
+        | .ok v rest => .ok (v, k) rest
+        | .crash w => .crash w
+        | .err => delayBacktrack p input .err k
+        | .fail => delayBacktrack p input .fail k
+    match result with
+    | .ok ((frameNames, duration), k') rest => .ok (.delay ⟨duration, frameNames, qubits.take k'⟩) rest
+    | .err => .err | .fail => .fail | .crash w => .crash w
+  | .err => .err | .fail => .fail | .crash w => .crash w
 
 /-- `parse_exchange` (command.rs:403) -/
 def parseExchange : Parser Instruction := do
@@ -1011,14 +1090,6 @@ def parseInclude : Parser Instruction := do
   pure (.include ⟨str filename⟩)
 
 /-! ## parser/instruction.rs -/
-
-/-- `&input[n..]`: panics when `n > input.len()` -/
-def sliceFrom (input : List Token) (n : Nat) : Outcome Unit :=
-  if n ≤ input.length then .ok () (input.drop n) else .crash "slice index out of range"
-
-/-- `&input[..n]`: panics when `n > input.len()` -/
-def sliceTo (input : List Token) (n : Nat) : Outcome Unit :=
-  if n ≤ input.length then .ok () (input.take n) else .crash "slice index out of range"
 
 /-- the command dispatch of `parse_instruction` (instruction.rs:46-104) -/
 def parseCommand (pe : Parser PExpr) (pi : Parser Instruction) : Command → Parser Instruction
